@@ -15,7 +15,7 @@ cargo test -p $PKG --test $T --offline > $B/$M.clean.log 2>&1; C=$?
 git apply $S/patch.diff || { echo "RESULT $D/$M patch-does-not-apply" >> $B/verify.log; exit 9; }
 cargo test -p $PKG --test $T --offline > $B/$M.patched.log 2>&1; P=$?
 rm -f $DEMO
-cargo test --workspace --no-fail-fast --offline > $B/$M.suite.log 2>&1
+cargo test --workspace --no-fail-fast --offline --lib --bins --tests > $B/$M.suite.log 2>&1
 PASSED=$(grep -E "^test result" $B/$M.suite.log | sed -E 's/.* ([0-9]+) passed.*/\1/' | paste -sd+ | bc)
 FAILED=$(grep -E "^test .* FAILED$" $B/$M.suite.log | sed -E 's/^test (.*) \.\.\. FAILED/\1/' | sed 's/.*:://' | sort | tr '\n' ' ')
 CE=$(grep -c "^error" $B/$M.suite.log)
